@@ -253,17 +253,49 @@ def check(prog, rep):
     # extrema accumulate centre -/+ radius, from the right tokens
     pl = cls.methods["parse_lines"].node
     w = f"pdb2pqr/psize.py:{pl.lineno} (Psize.parse_lines)"
-    stores = {U(s.targets[0]): U(s.value) for s in iter_stmts(pl.body) if isinstance(s, ast.Assign)
-              and U(s.targets[0]) in ("self.minlen[i]", "self.maxlen[i]")}
-    r3.add("extrema", stores == {"self.minlen[i]": "center[i] - rad", "self.maxlen[i]": "center[i] + rad"},
-           f"extrema stores: {stores}", w)
-    guards = []
-    for s in iter_stmts(pl.body):
-        if isinstance(s, ast.If) and any(U(x.targets[0]) in ("self.minlen[i]", "self.maxlen[i]") for x in s.body if isinstance(x, ast.Assign)):
-            guards.append(U(s.test))
-    gok = len(guards) == 2 and "center[i] - rad < self.minlen[i]" in guards[0] and "center[i] + rad > self.maxlen[i]" in guards[1] \
-        and all("is None" in g for g in guards)
-    r3.add("extrema-guards", gok, f"update tests: {guards}", w)
+    # running extrema: whenever the sphere's lower (upper) end is beyond the running minimum (maximum) - or no bound exists yet -
+    # a store of exactly that end must be reached, independently of what happens to the other bound
+    iloop = next((n for n in ast.walk(pl) if isinstance(n, ast.For) and U(n.iter) == "range(3)"
+                  and any(isinstance(x, ast.Assign) and U(x.targets[0]).startswith("self.m") for x in iter_stmts(n.body))), None)
+    if iloop is None:
+        raise AnalysisError("parse_lines: the per-axis loop updating minlen/maxlen was not found")
+    locals_ = {U(x.targets[0]): U(x.value) for x in iloop.body if isinstance(x, ast.Assign) and isinstance(x.targets[0], ast.Name)}
+
+    def resolve(txt):
+        for k, v in locals_.items():
+            import re as _re
+            txt = _re.sub(rf"\b{k}\b", f"({v})", txt)
+        return txt.replace("(center[i] - rad)", "center[i] - rad").replace("(center[i] + rad)", "center[i] + rad")
+
+    for bound, end, cmp_ in (("self.minlen[i]", "center[i] - rad", "<"), ("self.maxlen[i]", "center[i] + rad", ">")):
+        sts = [x for x in iter_stmts(iloop.body) if isinstance(x, ast.Assign) and U(x.targets[0]) == bound]
+        vals = sorted({resolve(U(x.value)) for x in sts})
+        forms = [reach_formula(x, iloop) for x in sts]
+        atoms = {}
+        for f_ in forms:
+            formula_atoms(f_, atoms)
+        need_atoms = [a for a in atoms if resolve(a) in (f"{end} {cmp_} {bound}", f"{bound} {'>' if cmp_ == '<' else '<'} {end}")]
+        none_atoms = [a for a in atoms if a.endswith("is None")]
+        others = [a for a in atoms if a not in need_atoms and a not in none_atoms]
+        hole = None
+        names = list(atoms)
+        for vals_ in itertools.product((True, False), repeat=len(names)):
+            asg = dict(zip(names, vals_))
+            # infeasible: a bound that does not exist cannot be compared
+            if any(asg[a] for a in none_atoms) and False:
+                pass
+            need = any(asg[a] for a in need_atoms) or any(asg[a] for a in none_atoms if bound.split("[")[0] in a or len(none_atoms) == 1)
+            if need and not any(eval_formula(f_, asg) for f_ in forms):
+                # with no bound yet, comparisons against None are not evaluated in the code (short-circuit): only count
+                # assignments where the 'is None' atoms are all False, or where the None atom alone should trigger the store
+                if any(asg[a] for a in none_atoms) and not all(asg[a] for a in none_atoms):
+                    continue
+                hole = {k: v for k, v in asg.items() if v}
+                break
+        ok = bool(sts) and vals == [end] and bool(need_atoms) and hole is None
+        r3.add(f"extrema|{bound}", ok,
+               f"{bound} is set to {vals} whenever {need_atoms or '?'} (or no bound exists yet), whatever the other tests say" if ok else
+               f"{bound}: stored values {vals}; " + (f"NOT updated although it should be when {sorted(hole)} hold together" if hole else "update test not found"), w)
     tok = {U(s.targets[0]): U(s.value) for s in iter_stmts(pl.body) if isinstance(s, ast.Assign)
            and U(s.targets[0]) in ("rad", "center", "subline", "words")}
     tok_ok = tok.get("rad") == "float(words[4])" and tok.get("center") == "[float(word) for word in words[0:3]]" \
